@@ -486,18 +486,23 @@ func ruleC20(c *Ctx) {
 			c.check(k && okNil, "C20-R3", fname, "last decode succeeded", pos, "err == nil", "returns although the last decode is not known to have succeeded")
 			c.check(last.Obj.Key() == t.Vals[0].Key(), "C20-R3", fname, "returned object is the one of the successful attempt", pos, ap(last.Obj), "returns "+ap(t.Vals[0])+" but the successful decode filled "+ap(last.Obj))
 			c.check(typeStr(last.Obj.Type()) == p.typ, "C20-R2", fname, "pre-decode target type", pos, p.typ, "decodes into "+typeStr(last.Obj.Type())+", want "+p.typ+" (the type full validation uses)")
-			// each decode: fresh object allocated in that attempt's closure frame, bytes = the decoder's argument
-			for _, d := range ds {
-				a, isAlloc := d.Obj.(*AllocV)
-				fresh := isAlloc && strings.Contains(a.Site, "$1:")
-				// distinct objects per attempt
-				cnt := 0
-				for _, d2 := range ds {
-					if d2.Obj.Key() == d.Obj.Key() {
-						cnt++
+			// each decode starts from the zero state: a target allocated since the previous attempt and not written yet,
+			// or a target reset to its zero value (x = T{}) since the previous attempt
+			for i, d := range ds {
+				prev := -1
+				if i > 0 {
+					prev = ds[i-1].Ev.Seq
+				}
+				fresh, why := zeroStateAt(t, d.Obj, prev, d.Ev.Seq)
+				if fresh {
+					// an object allocated before the previous attempt carries that attempt's partial state
+					for j := 0; j < i; j++ {
+						if ds[j].Obj.Key() == d.Obj.Key() && !resetBetween(t, d.Obj, ds[j].Ev.Seq, d.Ev.Seq) {
+							fresh, why = false, "is reused across attempts (a failed first attempt leaves partial state)"
+						}
 					}
 				}
-				c.check(fresh && cnt == 1, "C20-R3", fname, "fresh object per attempt", c.P.InstrPos(d.Ev.Instr), ap(d.Obj), "decode target "+ap(d.Obj)+" is reused across attempts (a failed first attempt leaves partial state)")
+				c.check(fresh, "C20-R3", fname, "fresh object per attempt", c.P.InstrPos(d.Ev.Instr), ap(d.Obj), "decode target "+ap(d.Obj)+" "+why)
 			}
 			// inputs: first attempt raw = base64 decode of the argument, second = inflated
 			raw := "(*encoding/base64.Encoding).DecodeString(encoding/base64.StdEncoding, $encodedResponse)#0"
@@ -584,4 +589,62 @@ func singleVerification(c *Ctx, rule string) {
 	}
 	c.count(rule+"/signed-root-paths", n)
 	c.floor(rule+"/signed-root-paths", 6)
+}
+
+// isZeroVal: the zero value of its type (T{} / nil / "" / 0 / false).
+func isZeroVal(v Val) bool {
+	switch x := v.(type) {
+	case *ConstV:
+		if x.C == nil {
+			return true
+		}
+		k := x.Key()
+		return k == `""` || k == "0" || k == "false"
+	case *StructLitV:
+		for _, f := range x.Fields {
+			if !isZeroVal(f) {
+				return false
+			}
+		}
+		return true
+	}
+	return false
+}
+
+// resetBetween: a whole-object store of the zero value into *obj strictly between two event sequence numbers.
+func resetBetween(t *Terminal, obj Val, lo, hi int) bool {
+	for _, e := range t.St.events {
+		if e.Kind == EvStore && e.Seq > lo && e.Seq < hi && e.Addr.Key() == obj.Key() && isZeroVal(e.Val) {
+			return true
+		}
+	}
+	return false
+}
+
+// zeroStateAt: is *obj in its zero state at event hi? Either obj is an allocation of this path that nothing has written
+// since (lo = the previous decode, -1 for none), or the last write to it before hi is a whole-object zero store.
+func zeroStateAt(t *Terminal, obj Val, lo, hi int) (bool, string) {
+	a, isAlloc := obj.(*AllocV)
+	if !isAlloc {
+		return false, "is not an object created by this operation"
+	}
+	zero := true
+	why := ""
+	base := lvalKey(a)
+	for _, e := range t.St.events {
+		if e.Kind != EvStore || e.Seq >= hi {
+			continue
+		}
+		switch {
+		case e.Addr.Key() == a.Key():
+			zero = isZeroVal(e.Val)
+			if !zero {
+				why = "is assigned " + ap(e.Val) + " before the decode"
+			}
+		case rootOf(e.Addr).Key() == a.Key() && strings.HasPrefix(lvalKey(e.Addr), base):
+			zero = false
+			why = "has " + apLval(e.Addr) + " written before the decode"
+		}
+	}
+	return zero, why
 }
